@@ -64,6 +64,9 @@ def _act_spec(rng):
     if restart and rng.random() < 0.7:
         cfg.pop("scaler", None)
     out = {"problem": spec, "cfg": cfg, "restart_at": restart}
+    if restart and rng.random() < 0.2:
+        # the checkpoint already meets the target: the restart returns at once (its own exit path)
+        out["restart_target_met"] = True
     if restart and rng.random() < 0.4:
         # the restart asks for fewer corrections than the checkpoint holds
         out["restart_maxcor"] = int(rng.integers(1, max(2, cfg["maxcor"])))
@@ -161,6 +164,8 @@ def _prepare(spec):
             cfg["maxiter"] = int(P.result.nit) + int(cfg["maxiter"])
             if spec.get("restart_maxcor"):
                 cfg["maxcor"] = int(spec["restart_maxcor"])
+            if spec.get("restart_target_met") and np.isfinite(P.result.fun):
+                cfg["ftarget"] = float(P.result.fun) + 1.0 + abs(float(P.result.fun))
     return problem, cfg, blob, spec.get("switch")
 
 
